@@ -21,6 +21,9 @@ def run(ctx):
     magg, mviol, msamples, mlost = shm.run_miri(ctx, "c04", 16 if q else 256, 20)
     ctx.log("miri c04: %s lost %d" % (magg, mlost))
     viol = eviol + viol + shm.miri_violations_for(ctx, mviol, "C04")
+    pagg, pviol = shm.run_proc(ctx, 10 if q else 180)
+    ctx.log("proc (SIGKILL/restart of real writer processes, guard off): %s" % pagg)
+    viol += pviol
     inconclusive = None
     if plans < 100 or len(table) < plans or ecov["after_crash_calls"] < 1000 or ecov["takeovers"] < 100 or ecov["wipes"] < 100 or magg["stops"] < 20:
         inconclusive = "fault enumeration incomplete (plans %d, cells reached %d, calls after a crash %d, takeovers %d, wipes %d, miri stops %d)" % (
@@ -42,6 +45,7 @@ def run(ctx):
         "enumeration": ecov,
         "sched": cov,
         "miri": dict(magg, processes_lost=mlost),
+        "proc": pagg,
     }
     finish(ctx, coverage, viol, inconclusive, assumptions=["crash points are the hook sites (between every shared-memory or file operation), not every machine instruction",
                                                           "a stop drops the writer's mapping only (munmap), the file keeps whatever state the stop left, as with a killed process"])
